@@ -19,7 +19,8 @@ pub type Tid = usize;
 #[derive(Clone, Copy, Debug, PartialEq, Eq, PartialOrd, Ord, Hash, Serialize, Deserialize)]
 pub struct ResKey { pub fam: u8, pub id: u32 }
 
-/// Task key: (family, id). Families: 0 = TA, 1 = TB, 2 = Box<TC>, 3 = Rc<TD>, 4 = Arc<TE>.
+/// Task key: (family, id). Families: 0 = TA, 1 = TB, 2 = Box<TC>, 3 = Rc<TD>, 4 = Arc<TE>, 5 = Box<TA>, 6 = Rc<TA>
+/// (wrappers around the very type of family 0).
 #[derive(Clone, Copy, Debug, PartialEq, Eq, PartialOrd, Ord, Hash, Serialize, Deserialize)]
 pub struct TaskKey { pub fam: u8, pub id: u32 }
 
@@ -168,6 +169,8 @@ pub struct Sim {
   pub depth_guard_fired: bool,
   pub execs_this_session: u64,
   pub file_dir: Option<std::path::PathBuf>,
+  /// Key announced by the last `execute_start` tracker event (disambiguates wrapper families around one inner type).
+  pub next_exec_key: Option<TaskKey>,
 }
 
 impl Default for Sim {
@@ -175,7 +178,7 @@ impl Default for Sim {
     Sim {
       log: Vec::new(), next_serial: 1, next_reader: 1, prog: None, op_stack: vec![], exec_stack: vec![], exec_count: vec![],
       ticks: 0, check_calls: 0, read_calls: 0, write_calls: 0, faults: FaultPlan::default(), crash_fired: false,
-      errors_injected: vec![], depth_guard_fired: false, execs_this_session: 0, file_dir: None,
+      errors_injected: vec![], depth_guard_fired: false, execs_this_session: 0, file_dir: None, next_exec_key: None,
     }
   }
 }
